@@ -2411,8 +2411,30 @@ def c17_exhaustive(tier) -> List[Item]:
     return items
 
 
+def getonly_items(rng, n) -> List[Item]:
+    """a backend that implements only `get` and `set` (its `exists` is the base class's) and misbehaves on reads:
+    every evaluation still equals its cache-off twin (oracle only: this backend is not part of the Lean model)"""
+    items = []
+    for _ in range(n):
+        P = Prog()
+        c = P.new_cache("getonly")
+        base = P.dataset([("a", P.option("A"))], cache=P.new_cache("getonly") if rng.random() < 0.5 else P.new_cache("memory"))
+        top = P.dataset([("x", base), ("b", P.option("B", dflt=P.value(0)))], cache=c)
+        root = top if rng.random() < 0.6 else P.coalesce([top, P.option("F", dflt=P.value("fallback"))])
+        recs = []
+        dicts = [{"A": 1}, {"A": 2, "B": 5}, {"A": 1}, {"F": 3}, {"A": 2, "B": 5}]
+        for o in dicts:
+            P.raw_op(op="script", cache=c, faults=[rng.choice(["behave", "behave", "miss", "failGet", "forget"]) for _ in range(rng.randint(0, 6))])
+            P.evaluate(root, o)
+            P.evaluate(root, o, cache_off=True)
+            recs.append((len(P.ops) - 2, len(P.ops) - 1))
+        items.append((P.to_json(), {"faulty": recs, "no_model": True}))
+    return items
+
+
 def c17_programs(rng, tier) -> List[Item]:
     items = corpus_items("C17")
+    items += getonly_items(rng, sizes(tier, 60, 400))
     items += c17_exhaustive(tier)
     cfg = Cfg(raising=False, scripted_caches=True, all_options=False)
     items += gen_items(rng, cfg, sizes(tier, 200, 3000), hist_faulty)
